@@ -6,8 +6,9 @@ EXTENDS Assignment, Json, IOUtils
 Traces == ndJsonDeserialize(IOEnv.TRACE_FILE)
 VARIABLES tid, l, err,
           cur,      \* the CURRENT lattice world: obstacles at their current poses, remaining lanelets
-          sync      \* obstacles whose recorded relations and the registries were produced by the same network
-tvars == <<tid, l, err, cur, sync>>
+          sync,     \* obstacles whose recorded relations and the registries were produced by the same network
+          cm        \* obstacles whose registrations follow the CENTRE relation (last assigned with use_center_only)
+tvars == <<tid, l, err, cur, sync, cm>>
 
 World(w) == [L |-> {r[1] : r \in Range(w.lan)},
              lan |-> [i \in {r[1] : r \in Range(w.lan)} |-> LET r == CHOOSE r \in Range(w.lan) : r[1] = i IN <<r[2], r[3], r[4], r[5]>>],
@@ -32,20 +33,29 @@ Geometry(W, e) ==      \* after assign / open: recorded relations equal the latt
     IN IF B = {} THEN ""
        ELSE LET x == CHOOSE x \in B : TRUE IN
             "C07." \o bad(x[1], x[2]) \o "/" \o W.ob[x[1]].kind \o "/" \o W.ob[x[1]].shape[1]
-Inverse(W, sy, e) ==   \* always: registries are exactly the inverse of the recorded shape relations (obstacles in sync)
+(* assign_obstacles_to_lanelets(use_center_only=True): only the centre relation is recorded and the registries follow   *)
+(* the centres until the next full assignment (obstacles in `cm`)                                                       *)
+RecGuide(W, cmo, e, o, t) == IF o \in cmo THEN RecCenter(W, e, o, t) ELSE RecShape(W, e, o, t)
+GeometryCenter(W, e) ==
+    LET B == {<<o, t>> \in Present(e) \X Times(W) : t >= W.ob[o].t0 /\ t <= LastT(W.ob[o])
+                                                     /\ RecCenter(W, e, o, t) # ExpCenter(W, W.ob[o], t)}
+    IN IF B = {} THEN "" ELSE LET x == CHOOSE x \in B : TRUE IN
+       "C07.CenterCorrect/center-only/" \o W.ob[x[1]].kind \o "/" \o W.ob[x[1]].shape[1]
+Inverse(W, sy, cmo, e) ==   \* always: registries are exactly the inverse of the recorded shape relations (obstacles in sync)
     IF \E lid \in W.L : (Range(Reg(e, lid).st) \cap sy) #
-            {o \in Present(e) \cap sy : W.ob[o].kind = "static" /\ lid \in RecShape(W, e, o, W.ob[o].t0)}
+            {o \in Present(e) \cap sy : W.ob[o].kind = "static" /\ lid \in RecGuide(W, cmo, e, o, W.ob[o].t0)}
     THEN "C07.RegistryInverse/static"
     ELSE IF \E lid \in W.L, t \in Times(W) : (AtT(Reg(e, lid).dy, t) \cap sy) #
-            {o \in Present(e) \cap sy : W.ob[o].kind = "dynamic" /\ t >= W.ob[o].t0 /\ t <= LastT(W.ob[o]) /\ lid \in RecShape(W, e, o, t)}
+            {o \in Present(e) \cap sy : W.ob[o].kind = "dynamic" /\ t >= W.ob[o].t0 /\ t <= LastT(W.ob[o]) /\ lid \in RecGuide(W, cmo, e, o, t)}
     THEN "C07.RegistryInverse/dynamic"
     ELSE IF \E lid \in W.L : ~(Range(Reg(e, lid).st) \subseteq Present(e))
     THEN "C07.RegistryInverse/static-absent-obstacle"
     ELSE ""
-Clause(W, sy, e) ==
+Clause(W, sy, cmo, e) ==
     IF e.exc # "None" THEN (IF e.op = "remove" THEN "C07.RemoveTotal" ELSE "C07.Total/" \o e.op)
-    ELSE LET g == IF e.op \in {"assign", "open_xml", "open_pb"} THEN Geometry(W, e) ELSE "" IN
-         IF g # "" THEN g ELSE Inverse(W, sy, e)
+    ELSE LET g == IF e.op \in {"assign", "open_xml", "open_pb"} THEN Geometry(W, e)
+                  ELSE IF e.op = "assign_center" THEN GeometryCenter(W, e) ELSE "" IN
+         IF g # "" THEN g ELSE Inverse(W, sy, cmo, e)
 
 (* how a call changes the lattice world (the recorded relations and registries are logged, not modelled here) *)
 ShiftPoses(ps, d) == [i \in DOMAIN ps |-> <<ps[i][1] + d[1], ps[i][2] + d[2], ps[i][3]>>]
@@ -61,18 +71,26 @@ NextSync(W, sy, e) ==
     IF e.exc # "None" THEN sy
     ELSE CASE e.op \in {"assign", "open_xml", "open_pb"} -> Present(e)
            [] e.op = "replace_network" -> {}             \* recorded relations refer to the old network until re-assigned
+           [] e.op = "assign_center" -> Present(e)
            [] e.op = "add"    -> sy \cup {e.arg}
            [] e.op = "remove" -> sy \ {e.arg}
            [] OTHER -> sy
 
-TInit == tid \in 1..Len(Traces) /\ l = 1 /\ err = 0 /\ cur = World(Traces[tid].world) /\ sync = {}
+NextCm(cmo, e) ==
+    IF e.exc # "None" THEN cmo
+    ELSE CASE e.op = "assign_center" -> Present(e)
+           [] e.op \in {"assign", "open_xml", "open_pb"} -> {}
+           [] e.op \in {"add", "remove"} -> cmo \ {e.arg}
+           [] OTHER -> cmo
+TInit == tid \in 1..Len(Traces) /\ l = 1 /\ err = 0 /\ cur = World(Traces[tid].world) /\ sync = {} /\ cm = {}
 TStep == /\ l <= Len(Traces[tid].ev)
          /\ LET e  == Traces[tid].ev[l]
                 W1 == NextWorld(cur, World(Traces[tid].world), e)
                 s1 == NextSync(cur, sync, e)
-                c  == Clause(W1, s1, e)
+                c1 == NextCm(cm, e)
+                c  == Clause(W1, s1, c1, e)
             IN /\ err' = IF c = "" THEN err ELSE IF PrintT(<<"REJECT", tid, l, c>>) THEN err + 1 ELSE err
-               /\ cur' = W1 /\ sync' = s1
+               /\ cur' = W1 /\ sync' = s1 /\ cm' = c1
          /\ l' = l + 1 /\ UNCHANGED tid
 TSpec == TInit /\ [][TStep]_tvars
 ===================================================================================
